@@ -35,6 +35,8 @@ func semverish(level int, prefixes G, arMin, arMax int) G {
 		Seq(prefixes, coreTiny, pre1),
 		Seq(prefixes, Lit("1.0.0", "1.2.3", "0.0.0"), pre2),
 		Seq(prefixes, Lit("1.0.0", "1.2.3"), Opt(Lit("-alpha", "-rc.1")), build),
+		// components around 2^16 and 2^32 (packed-key and narrowing bugs)
+		Seq(prefixes, Lit("1.0.10", "1.0.65535", "1.0.65536", "1.0.65541", "1.0.65636", "1.1.65536", "1.65536.0", "1.65537.0", "1.65536.1", "65536.0.0", "1.0.4294967296", "1.4294967297.0", "1.0.1.10", "1.0.1.65541", "1.0.1.65636", "1.0.2")),
 		// numeric oddities in the core
 		Seq(prefixes, Lit("01.0.0", "1.01.0", "1.0.01", "00.0.0", "2147483647.0.0", "2147483648.0.0", "9223372036854775807.0.0", "9223372036854775808.0.0", "18446744073709551616.0.0", "1.0.000000000000000000002")),
 	)
